@@ -84,6 +84,7 @@ void h_b_sort(void)
             for (a = 0; a < 5; a++) {
                 int np0 = (a == 1 && n > 1) ? n : 1, np1 = (a == 1 && n > 2) ? 2 : 1;
                 for (p0 = 0; p0 < np0; p0++) for (p1 = 0; p1 < np1; p1++) {
+                    VF_SCEN(n > 1);
                     vf_fill(n, code);
                     vf_rand_script[0] = p0; vf_rand_script[1] = p1 ? n - 1 : 0; vf_rand_n = 0;
                     cstl_raw_array_sort(&vf_buf[1], (size_t)n, VF_ESZ, vf_cmp, NULL, cstl_swap, &vf_buf[n + 1], vf_algos[a]);
@@ -121,6 +122,7 @@ void h_b_vector(void)
         for (k = 0; k < n; k++) ncodes *= 3;
         for (code = 0; code < ncodes; code++) {
             struct cstl_vector v; int c = code; struct vf_e probe;
+            VF_SCEN(n > 1);
             cstl_vector_init(&v, VF_ESZ);
             cstl_vector_resize(&v, (size_t)n);
             for (k = 0; k < n; k++) { struct vf_e * e = cstl_vector_at(&v, (size_t)k); int j; e->b[0] = (unsigned char)(c % 3); c /= 3; for (j = 1; j < VF_ESZ; j++) e->b[j] = (unsigned char)j; }
